@@ -306,7 +306,7 @@ package updog
 //@   && (forall r idx(rgs) :: rgs[r].result != nil && len(rgs[r].fields) == level
 //@        && (arr(rgs[r].fields) == nil || (!(arr(rgs[r].fields) in old($alloc)) && allocated(arr(rgs[r].fields)))))
 
-//@ func [C02,C08,C14,C04] (*Query).groupBy(q, groupByFields, result, idx) (finalResult)
+//@ func [C02,C08,C14,C04,C03] (*Query).groupBy(q, groupByFields, result, idx) (finalResult)
 //@   requires IdxInv(idx) && result != nil
 //@   requires forall j idx(groupByFields) :: forall a idx(groupByFields[j].Values) :: hasCol(idx.values, groupByFields[j].Values[a].Idx)
 //@   ensures [C02] empty_list_no_groups: len(groupByFields) == 0 ==> len(finalResult) == 0
@@ -336,6 +336,9 @@ package updog
 //@   ensures [C14] err == nil ==> result != nil
 //@   ensures [C14,C04] IdxInv(idx) && idx.mtx.held == 0
 //@   ensures [C01,C03] count_is_number_of_rows_satisfying_the_expression: err == nil ==> result.Count == card(sem(q.Expr, idx))
+//@   ensures [C02] unknown_group_by_column_is_an_error: err == nil ==> (forall j idx(q.GroupBy) :: (q.GroupBy[j] in idx.schema.Columns))
+//@   ensures [C02] no_group_by_no_groups: err == nil && len(q.GroupBy) == 0 ==> len(result.Groups) == 0
+//@   ensures [C02] one_field_per_listed_column: err == nil ==> (forall g idx(result.Groups) :: len(result.Groups[g].Fields) == len(q.GroupBy))
 //@   ensures [C03] evaluation_changes_no_meaning: forall x Expression :: sem(x, idx) == old(sem(x, idx))
 //@   ensures [C03] stored_and_preloaded_bitmaps_unchanged: forall k uint64 :: gcol(idx.values, k) == old(gcol(idx.values, k))
 
@@ -376,9 +379,13 @@ package updog
 //@   ensures [C15] err == nil ==> fs == old(fs)
 //@   ensures [C15] err == nil ==> idx != nil && fresh(idx) && !db.closed && idx.db == db && SchemaOK(idx.schema) && idx.metrics != nil && CacheValid(idx.cache) && idx.values != nil
 //@   ensures [C16] read_only: db.committed == old(db.committed) && db.ncommits == old(db.ncommits) && !db.wopen
+//@   ensures [C15,C06] accepts_only_complete_indexes: err == nil ==> shas(db.committed) && sin(db.committed, kS()) && sin(db.committed, kI()) && blen(sval(db.committed, kI())) == 4
+//@   ensures [C01,C05] row_counter_is_read_back: err == nil ==> idx.nextRowID == be32dec(sval(db.committed, kI()))
 //@   loop 1
 //@     invariant idx != nil && !(idx in old($alloc)) && idx.db == db && DBOpen(db) && !db.wopen && idx.metrics != nil && CacheValid(idx.cache) && SchemaOK(idx.schema)
 //@     invariant db.committed == old(db.committed) && db.ncommits == old(db.ncommits) && 0 <= $i
+//@     invariant shas(db.committed) && sin(db.committed, kS()) && sin(db.committed, kI()) && blen(sval(db.committed, kI())) == 4
+//@     invariant idx.nextRowID == be32dec(sval(db.committed, kI()))
 
 //@ func [C15] (*Index).Close(idx) (err)
 //@   requires idx != nil && (idx.db != nil ==> !idx.db.wopen)
@@ -388,7 +395,10 @@ package updog
 //@   ensures [C15] idx.db == nil
 //@   ensures [C15] second_close_is_noop: old(idx.db) == nil ==> err == nil
 
-// package-level byte slices used as keys: set once by the package initialiser, never modified
+// package-level byte slices used as keys: set once by the package initialiser (verified: the stores in init are
+// checked against the field invariants below), never modified afterwards (frames of the functions under contract)
+//@ func [C01,C04,C05,C06,C15,C16] init()
+//@   modifies *
 //@ fieldinv global.keySchema: len($v) == 1 && cap($v) == 1 && arr($v) != nil && heap("[]uint8")[arr($v)][off($v)] == 83
 //@ fieldinv global.keyNextRowID: len($v) == 1 && cap($v) == 1 && arr($v) != nil && heap("[]uint8")[arr($v)][off($v)] == 73
 //@ fieldinv global.keyPrefixValue: len($v) == 1 && cap($v) == 1 && arr($v) != nil && heap("[]uint8")[arr($v)][off($v)] == 86
@@ -438,6 +448,7 @@ package updog
 //@   ensures [C06] error_leaves_no_index: err != nil ==> (forall j int :: old(db.ncommits) <= j && j < db.ncommits ==> !sin(db.commits[j], kS()))
 //@   ensures [C06,C05] complete_at_the_end: err == nil ==> db.ncommits > old(db.ncommits) && db.commits[db.ncommits - 1] == db.committed
 //@        && shas(db.committed) && sin(db.committed, kS()) && sin(db.committed, kI()) && blen(sval(db.committed, kI())) == 4
+//@   ensures [C05,C01] row_counter_is_number_of_AddRow_calls: err == nil ==> be32dec(sval(db.committed, kI())) == idx.nextRowID
 //@   ensures [C06] no_transaction_left_open: !db.wopen && !db.closed && idx.mtx.held == 0
 //@   loop 1
 //@     invariant tx != nil && tx.gdb == db && tx.writable && !tx.done && db.wopen && !db.closed && bucket != nil && bucket.gtx == tx
@@ -522,6 +533,14 @@ package updog
 //@ pred BigWInv(w *BigIndexWriter) := w != nil && SchemaMaps(w.schema) && w.db != nil && w.tempDB != nil && w.db != w.tempDB
 //@   && DBOpen(w.tempDB) && w.tempDB.wopen && w.tempTx != nil && allocated(w.tempTx) && w.tempTx.gdb == w.tempDB && w.tempTx.writable && !w.tempTx.done && shas(w.tempTx.work)
 
+//@ func [C06,C05,C19] NewBigIndexWriter(db, tempDB) (w, err)
+//@   requires DBOpen(db) && DBOpen(tempDB) && db != tempDB && !tempDB.wopen
+//@   modifies tempDB.committed; tempDB.commits; tempDB.ncommits; tempDB.wopen
+//@   ensures [C06] output_untouched_until_flush: db.committed == old(db.committed) && db.ncommits == old(db.ncommits) && db.wopen == old(db.wopen)
+//@   ensures [C05] err == nil ==> w != nil && fresh(w) && BigWInv(w) && w.db == db && w.tempDB == tempDB && w.nextRowID == 0 && w.mtx.held == 0
+//@   ensures [C05] err != nil ==> w == nil
+//@   ensures [C19] err != nil ==> !tempDB.wopen
+
 //@ func [C05,C18,C06] (*BigIndexWriter).AddRow(idx, values) (rowID, err)
 //@   requires BigWInv(idx) && idx.mtx.held == 0
 //@   assumes fewer_than_2_32_rows: idx.nextRowID < 4294967295
@@ -549,8 +568,9 @@ package updog
 //@   requires [C06] output_has_no_index_yet: !sin(idx.db.committed, kS())
 //@   modifies heap bbolt.Tx.work; heap bbolt.Tx.done; heap bbolt.DB.committed; heap bbolt.DB.commits; heap bbolt.DB.ncommits; heap bbolt.DB.wopen; heap roaring.Bitmap.view
 //@   ensures [C06] all_or_nothing: err != nil ==> idx.db.ncommits == old(idx.db.ncommits) && idx.db.committed == old(idx.db.committed)
-//@   ensures [C06,C05] complete_in_one_commit: err == nil ==> idx.db.ncommits == old(idx.db.ncommits) + 1 && idx.db.commits[old(idx.db.ncommits)] == idx.db.committed
+//@   ensures [C06,C05,C19] complete_in_one_commit: err == nil ==> idx.db.ncommits == old(idx.db.ncommits) + 1 && idx.db.commits[old(idx.db.ncommits)] == idx.db.committed
 //@        && shas(idx.db.committed) && sin(idx.db.committed, kS()) && sin(idx.db.committed, kI()) && blen(sval(idx.db.committed, kI())) == 4
+//@   ensures [C05,C01] row_counter_is_number_of_AddRow_calls: err == nil ==> be32dec(sval(idx.db.committed, kI())) == idx.nextRowID
 //@   ensures [C19] no_transaction_left_open: !idx.db.wopen && !idx.tempDB.wopen
 //@   loop 1
 //@     invariant idx != nil && idx.db != nil && idx.db != idx.tempDB && !idx.db.closed && idx.db.wopen && idx.db.ncommits == old(idx.db.ncommits) && idx.db.committed == old(idx.db.committed)
